@@ -147,17 +147,18 @@ func (s *chunkSrc) Read(p []byte) (int, error) {
 }
 
 type wexec struct {
-	c         *websocket.Conn
-	tr        *xport.ScriptConn
-	tw        *WTrace
-	compNeg   bool
-	compOn    bool
-	level     int
-	deadline  time.Time
-	open      io.WriteCloser
-	openMsg   int
-	stopOnErr bool
-	server    bool
+	c          *websocket.Conn
+	tr         *xport.ScriptConn
+	tw         *WTrace
+	compNeg    bool
+	compOn     bool
+	level      int
+	deadline   time.Time
+	open       io.WriteCloser
+	lastClosed io.WriteCloser // writer of the most recent explicitly closed message
+	openMsg    int
+	stopOnErr  bool
+	server     bool
 	// gate, if set, is called before every API call (interleaved execution);
 	// after is called after every API call with the trace entry.
 	gate  func()
@@ -416,6 +417,19 @@ func (x *wexec) writer(si int, s WStep, bad bool) {
 			x.endSent(cm)
 			continue
 		}
+		if p.API == "stale" {
+			// the application still holds the writer of an earlier, closed message
+			// and uses it by mistake while this message is open: that fails, writes
+			// nothing and does not touch the open message
+			if old := x.lastClosed; old != nil {
+				if p.MT == 1 {
+					x.call(si, pi+1, "WriteAfterClose", true, -1, func() error { _, e := old.Write([]byte("late")); return e })
+				} else {
+					x.call(si, pi+1, "CloseAfterClose", true, -1, func() error { return old.Close() })
+				}
+			}
+			continue
+		}
 		if p.API == "prepctl" {
 			// a prepared ping/pong sent while the message is open: like
 			// WriteControl it goes between the message's frames and must not end it
@@ -449,6 +463,7 @@ func (x *wexec) writer(si int, s WStep, bad bool) {
 	}
 	x.call(si, len(s.Parts)+2, "Close", bad, m, func() error { return w.Close() })
 	x.endSent(m)
+	x.lastClosed = w
 	if s.After == "write" || s.After == "both" {
 		x.call(si, len(s.Parts)+3, "WriteAfterClose", true, -1, func() error { _, e := w.Write([]byte("late")); return e })
 	}
@@ -634,6 +649,10 @@ func genParts(t *rapid.T, n, w int, allowCtl bool, apis []string) []WPart {
 	for i := 0; i < k; i++ {
 		if allowCtl && rapid.IntRange(0, 5).Draw(t, "ctlpart") == 0 {
 			parts = append(parts, WPart{API: rapid.SampledFrom([]string{"control", "control", "prepctl"}).Draw(t, "ctlapi"), MT: rapid.SampledFrom([]int{websocket.PingMessage, websocket.PongMessage}).Draw(t, "ctlmt"), Data: genCtlPayload(t, "ctlp")})
+			continue
+		}
+		if allowCtl && rapid.IntRange(0, 11).Draw(t, "stalepart") == 0 {
+			parts = append(parts, WPart{API: "stale", MT: rapid.IntRange(0, 1).Draw(t, "stale_kind")})
 			continue
 		}
 		if allowCtl && rapid.IntRange(0, 9).Draw(t, "togglepart") == 0 {
